@@ -136,7 +136,11 @@ impl<'de> Deserialize<'de> for JoinRule {
     where
         D: Deserializer<'de>,
     {
-        let json: Box<RawJsonValue> = Box::deserialize(deserializer)?;
+        // A `RawValue` can't be deserialized from the buffered content that serde uses for
+        // `#[serde(flatten)]`, which is how the redacted event content embeds this type, so go
+        // through a `JsonValue` first.
+        let json = JsonValue::deserialize(deserializer)?;
+        let json: Box<RawJsonValue> = serde_json::value::to_raw_value(&json).map_err(Error::custom)?;
 
         #[derive(Deserialize)]
         struct ExtractType<'a> {
